@@ -245,6 +245,13 @@ func sysChild() {
 			out.Flush()
 			continue
 		}
+		if strings.HasPrefix(line, "sysagg ") {
+			bts, _ := json.Marshal(runSysAgg(root, line))
+			out.Write(bts)
+			out.WriteByte('\n')
+			out.Flush()
+			continue
+		}
 		if strings.HasPrefix(line, "sysdist ") {
 			bts, _ := json.Marshal(runDist(root, line))
 			out.Write(bts)
@@ -642,6 +649,29 @@ func runSysBatch(lines []string, ch *vh.Channel, orc *vh.Oracle, rep *vh.Report,
 		if strings.HasPrefix(line, "grpc ") || strings.HasPrefix(line, "proxyreq ") {
 			orc.Case(line, true, "api-boundary")
 			handleAPI(line, append([]byte(nil), sc.Bytes()...), orc)
+			continue
+		}
+		if strings.HasPrefix(line, "sysagg ") {
+			var br sysResp
+			if err := json.Unmarshal(sc.Bytes(), &br); err != nil {
+				orc.Error = "child output: " + err.Error()
+				break
+			}
+			orc.Case(line, true, "aggregation-valueless-newest-fraction")
+			if br.Err != "" {
+				orc.Error = "sysagg child: " + br.Err
+			} else if len(br.B) != 1 || br.B[0] != br.A {
+				as, bs := strings.Split(br.A, " ; "), strings.Split(strings.Join(br.B, ""), " ; ")
+				what := "answers differ"
+				for i := range as {
+					if i < len(bs) && as[i] != bs[i] {
+						what = fmt.Sprintf("one fraction: %s ; several fractions: %s   (bin = mid~token~sum~total~notExists)", as[i], bs[i])
+						break
+					}
+				}
+				rep.Violate(vh.Violation{Site: "seq/qpr.go:SamplesContainer.Merge", Class: "aggregation-differs-from-single-fraction",
+					What: what, Replay: []string{line}})
+			}
 			continue
 		}
 		if strings.HasPrefix(line, "sysdist ") {
